@@ -12,8 +12,8 @@ TB = ("Lean 4.33.0 kernel + Mathlib v4.33.0; axioms propext/Classical.choice/Quo
       "AST; Python/JAX/XLA/IEEE-754 runtime modelled, not verified.")
 
 COMMON_NOTE = (" The theorem layer covers the single-determinant kinds (rhf, uhf, each NOCI determinant) at the first-quantised level "
-               "(Slater coefficients = minors, one-body operators = column derivations; DESIGN §10 fallback); for the multi-determinant / CI kinds the overlap formulas are proved (C01, C11) while their energies and force biases are "
-               "validated against an explicit Fock-space state (harness/trials.py + fock.py), not proved. Walkers with vanishing reference "
+               "(Slater coefficients = minors, one-body operators = column derivations; DESIGN §10 fallback); for the multi-determinant / CI kinds the overlap formulas are proved (C01, C11); the energies and force biases of the AD / finite-difference kinds (multislater, CISD, UCISD, GCISD, CISD_THC) are proved for every bra that is a combination of products of minors (C02 auto_energy_is_mixed_estimator, C03 auto_force_bias_is_mixed_expectation; the AD engine itself is trusted), while the hand-coded CI energies / force biases (cisd, cisd_faster, ucisd) are "
+               "validated against an explicit Fock-space state (harness/trials.py + fock.py) and against the column-replacement estimator of their own overlap, not proved. Walkers with vanishing reference "
                "overlap (outside the CI formulas' domain) and exact pivot ties (JAX det defect) are avoided and counted.")
 
 CLAIMED = {
@@ -33,7 +33,7 @@ CLAIMED = {
         category="proof",
         text=("Lean theorems over any linearly ordered field, every N, every weight vector with W>0, every offset in (0,1): "
               "indices < N (only existing walkers), equal new weights summing to W, copies(k) = floor(b-z)-floor(a-z) in "
-              "{floor x, ceil x} with x = N|w_k|/W, zero weight never selected, copies sum to N, indices monotone, NumPy = jitted, "
+              "{floor x, ceil x} with x = N|w_k|/W, zero weight never selected, copies sum to N, indices monotone, NumPy = jitted, indices unchanged under a common positive rescaling of the weights (comb_scale_invariant), "
               "UHF blocks indexed together, integral over the offset of copies(k) = x exactly (real weights), and an MPI "
               "gather/compute/scatter transition system: every interleaving delivers the slices of the serial comb, no deadlock. "
               "Tied to the code by exact comparison of index vectors for all variants (incl. 2-4 fake MPI ranks with random "
@@ -45,7 +45,7 @@ CLAIMED = {
     "C19": dict(
         category="proof",
         text=("Lean theorems over any linearly ordered field, every series length and admitted block size: mean = sum(we)/sum(w); "
-              "mean and every per-size error^2 invariant under w -> c w; mean shifts with and errors ignore an added constant; constant "
+              "mean and every per-size error^2 invariant under w -> c w; mean shifts with and errors ignore an added constant; the single-pass E[x^2]-E[x]^2 form equals the two-pass form in exact arithmetic (blockErr2_single_pass: the two differ by rounding only, which the tie's large-offset series decide); constant "
               "data give error 0 at every size and the plateau search returns None; every admitted size leaves >= 2 blocks; block size 1 "
               "= unbiased weighted-variance formula over n-1; jackknife estimates = brute-force leave-one-out ratios; outlier mask = "
               "|x_i - med| < m (MAD + eps). Tied to the code by comparison with the exact rational model (means, error^2, plateau "
@@ -90,9 +90,9 @@ CLAIMED = {
               "(generated `decide` obligations), and erasing operations that act as the identity does not change any run (run_eraseTags, for every "
               "implementation, history and option branch) - hence equal energies for a converged trial / at zero coupling. Every call to a "
               "sampler/hamiltonian/propagator/trial method matches the callee's signature (static arity check = callability). Estimator theorems: "
-              "cap semantics, no-outlier case = weighted mean, constant local energy, batched = map for every batch split, single block. "
+              "cap semantics, no-outlier case = weighted mean, constant local energy, batched = map for every batch split, single block; the reduction over the (n_sr_blocks, n_ene_blocks) array is the total-weight average = group averages weighted by group weight for every grouping (combine_grouped; an unweighted second stage differs: two_stage_unweighted_differs). "
               "Tied to the code by running all six entry points over the option matrix (walker type x n_batch x block structure) and comparing the "
-              "equated energies, reproducibility, batch independence, and the single-block energy with the exact Lean estimator on the returned walkers."),
+              "equated energies, reproducibility, batch independence, the two ways the driver passes coupling and observable, and the single-block energy with the exact Lean estimator on the returned walkers."),
         design_ref="DESIGN.md §5/C12",
         technique="Lean 4 proof over translator-generated programs (erasure soundness, decide obligations) + exact estimator correspondence",
         note=TB + " Equalities hold under the stated hypotheses (optimize = id on a converged trial; rebuild = id at zero coupling), which the run instantiates; Python dispatch beyond arity is covered by actually calling every entry point.",
@@ -114,7 +114,7 @@ CLAIMED = {
         text=("Lean theorems for every dimension: Cauchy-Binet (proved here; not in Mathlib) gives det(C^H W) = sum over occupation strings of "
               "conj(minor C) minor W, i.e. the rhf/uhf overlap is the many-body inner product for every complex non-orthonormal walker and trial; "
               "restricted = unrestricted on equal blocks; linear combinations (NOCI); batched = per-walker map for every batch split; C C^H of an "
-              "orthonormal determinant is <a+_q a_p>. determinant lists (multislater): the Wick-type formula equals sum_i c_i <D_i|phi> for every list, reference and excitation rank (Props/C11 multislater_overlap); GHF: the stacked matrix is C^T diag(W_up, W_dn), spin-pure GHF = UHF. Restricted CISD (CISD, cisd, cisd_faster): the closed form (1 + 2 o1 + o2) o0 equals the explicit expansion over reference, single and double in-place excitations for every amplitude tensor (cisd_overlap_is_manybody); unrestricted CISD (UCISD, ucisd) likewise for same-spin amplitudes antisymmetric in the virtual indices (ucisd_overlap_is_manybody); generalised CISD (GCISD) with no symmetry assumption (gcisd_overlap_is_manybody); THC-factorised CISD (CISD_THC) = CISD for the contracted tensor (cisd_thc_overlap_is_manybody) - so the overlap formula of every one of the 12 trial classes is a theorem. Tied to the code by rhf/uhf overlaps vs the same Lean definitions executed at Q(i), and for all "
+              "orthonormal determinant is <a+_q a_p>. determinant lists (multislater): the Wick-type formula equals sum_i c_i <D_i|phi> for every list, reference and excitation rank (Props/C11 multislater_overlap); GHF: the stacked matrix is C^T diag(W_up, W_dn), spin-pure GHF = UHF. Restricted CISD (CISD, cisd, cisd_faster): the closed form (1 + 2 o1 + o2) o0 equals the explicit expansion over reference, single and double in-place excitations for every amplitude tensor (cisd_overlap_is_manybody); unrestricted CISD (UCISD, ucisd) likewise for same-spin amplitudes antisymmetric in the virtual indices (ucisd_overlap_is_manybody); generalised CISD (GCISD) with no symmetry assumption (gcisd_overlap_is_manybody); THC-factorised CISD (CISD_THC) = CISD for the contracted tensor (cisd_thc_overlap_is_manybody) - so the overlap formula of every one of the 12 trial classes is a theorem; single-determinant overlaps and their linear combinations are bras, i.e. linear combinations of products of one minor per walker block (uhf_overlap_is_bra, bra_add, bra_smul), the class of functionals for which C02/C03/C13 are proved without looking at the trial. Tied to the code by rhf/uhf overlaps vs the same Lean definitions executed at Q(i), and for all "
               "12 trial classes (both entry points, batched order, density matrices) against the explicit second-quantised state."),
         design_ref="DESIGN.md §5/C01",
         technique="Lean 4 proof (Cauchy-Binet over increasing strings) + exact Q(i) correspondence + Fock-space spec comparison",
@@ -125,9 +125,9 @@ CLAIMED = {
         text=("Lean theorems for every dimension: with the column calculus D1 (sum of single column replacements = tr(adj M N)) and D2 (ordered pairs "
               "of distinct columns = det M (tr tr - tr of product), proved via det(1 + U V) = det(1 + V U)), the Green's-function energy formula of "
               "uhf equals the mixed estimator written with explicit column replacements, including spin-dependent h1; rhf with restricted walkers "
-              "equals the unrestricted formula on [W, W] and sees exactly the spin average of h1. NOCI's sum_d c_d ov_d E_d / sum_d c_d ov_d is the mixed estimator of the combined bra (linearity). Central second differences of any polynomial p satisfy p(e) - 2p(0) + p(-e) = e^2 (2 p_2 + e^2 q(e)) with q a polynomial (the 'converges quadratically in the step' clause of the finite-difference kinds, whose differenced overlaps are polynomials in the step). Tied to the code by rhf/uhf energies vs the Lean "
+              "equals the unrestricted formula on [W, W] and sees exactly the spin average of h1. NOCI's sum_d c_d ov_d E_d / sum_d c_d ov_d is the mixed estimator of the combined bra (linearity). Central second differences of any polynomial p satisfy p(e) - 2p(0) + p(-e) = e^2 (2 p_2 + e^2 q(e)) with q a polynomial (the 'converges quadratically in the step' clause of the finite-difference kinds, whose differenced overlaps are polynomials in the step). GHF is the same formula in the doubled space (ghf_energy_is_mixed_estimator). The AD / finite-difference kinds (wave_function_auto): for EVERY bra that is a linear combination of products of minors, every walker (singular sub-blocks included) and every dimension, x -> <psi|(1 + xO)phi> and x -> <psi|(1 + xL + x^2 L^2/2)phi> are polynomials whose linear / quadratic coefficients are <psi|O|phi> and half of <psi|L^2|phi> in column-replacement form (auto_one_body_path, auto_two_body_path; by multilinearity of det alone), and h0 + (dx1 + sum d2/2)/overlap with the normal-ordering shift v0 IS the mixed estimator (auto_energy_is_mixed_estimator; restricted entry: auto_energy_restricted; on one determinant it coincides with the Green's-function formula: auto_energy_eq_uhf_energy). Tied to the code by rhf/uhf energies vs the Lean "
               "model at Q(i) and by all 12 classes / entry points vs the Fock-space estimator (spin-dependent h1 where the property lists it), plus "
-              "the eps^2 convergence of the finite-difference kinds."),
+              "the eps^2 convergence of the finite-difference kinds, plus the theorem's right-hand side (column replacements) evaluated with each class's own overlap function vs the class's energy."),
         design_ref="DESIGN.md §5/C02",
         technique="Lean 4 proof (determinant column calculus D1/D2) + exact Q(i) correspondence + Fock-space spec comparison",
         note=TB + COMMON_NOTE + " Hand-coded cisd/ucisd use single-precision intermediates (tolerance 5e-4); hand-coded ucisd with spin-dependent h1 is outside the property's quantifier.",
@@ -136,7 +136,7 @@ CLAIMED = {
         category="proof",
         text=("Lean theorems for every dimension: each uhf force-bias component is the mixed expectation of the spin-summed one-body operator L_g for "
               "the product bra (D1 + trace cyclicity), rhf restricted = unrestricted on [W, W], and the one-body numerator over the overlap is "
-              "tr((C^H W)^-1 C^H O W), the first-order coefficient along 1 + xO. NOCI's overlap-weighted combination is the mixed expectation for the combined bra. As a statement about the function of r: <psi|(1 + rO)phi> = <psi|phi>(1 + r tr((C^H W)^-1 C^H O W) + r^2 Q(r)) with Q a polynomial, so the force bias is the logarithmic derivative of the overlap along the generator (overlap_along_generator). Tied to the code by every component vs the Lean model at Q(i), by all "
+              "tr((C^H W)^-1 C^H O W), the first-order coefficient along 1 + xO. NOCI's overlap-weighted combination is the mixed expectation for the combined bra. As a statement about the function of r: <psi|(1 + rO)phi> = <psi|phi>(1 + r tr((C^H W)^-1 C^H O W) + r^2 Q(r)) with Q a polynomial, so the force bias is the logarithmic derivative of the overlap along the generator (overlap_along_generator). GHF in the doubled space likewise; for the AD kinds the differentiated function is a polynomial whose linear coefficient is <psi|L_g|phi> for every bra that is a combination of products of minors (auto_force_bias_is_mixed_expectation). Tied to the code by every component vs the Lean model at Q(i), by all "
               "12 classes / entry points vs the Fock-space expectation, and by forward-mode and finite-difference logarithmic derivatives of the "
               "library's own overlap along expm(x L_g)."),
         design_ref="DESIGN.md §5/C03",
@@ -265,7 +265,7 @@ CLAIMED = {
               "dw = diag(V^T A' V) satisfy the linearised eigen-equation A dV + A' V = dV diag(w) + V diag(dw) and V^T dV is antisymmetric (the standard "
               "derivative for a non-degenerate spectrum); the decision logic of F gives |F_ij| <= 1/thresh + 1 for EVERY pair of eigenvalues (exactly "
               "degenerate: 0 / 1; nearly degenerate: 1/big; separated: 1/(w_j - w_i)), so the derivative is finite; selecting distinct columns of an "
-              "orthogonal matrix and flipping signs gives orthonormal columns. Convergence of the Roothaan iteration is not a theorem. Tied to the code by "
+              "orthogonal matrix and flipping signs gives orthonormal columns. The jit cache in front of optimize is transparent for every history of calls iff objects that compare equal are traced to the same function (jit_transparent; its hypothesis is checked on the classes). Convergence of the Roothaan iteration is not a theorem. Tied to the code by "
               "jax.jvp(_eigh) on non-degenerate / exactly / nearly degenerate spectra (finite, first-order equations, eigenvalue derivative vs finite "
               "differences, F entries recovered from dV vs the Lean logic) and rhf/uhf.optimize (orthonormal output for every input, fixed point at "
               "convergence, energy vs an independent Roothaan solver; closed and open shells, spin-dependent h1)."),
